@@ -36,9 +36,13 @@ func (mgr *Manager) Heal(heal info.Heal) {
 		}
 		mgr.event.HealStart.Emit(e)
 
+		// listeners may have adjusted (or replaced) the snapshots, the formula map and the flat
+		// value: compute the heal from the event as it is after the emission
+		source, target, baseHeal = e.Healer, e.Target, e.BaseHeal
+
 		// Get base heal amount
 		hpLost := target.MaxHP() - target.CurrentHP()
-		base := heal.HealValue
+		base := e.HealValue
 		for _, k := range slices.Sorted(maps.Keys(baseHeal)) { // fixed summation order
 			v := baseHeal[k]
 			switch k {
